@@ -165,7 +165,7 @@ def run(cx, out):
                 continue
             if f['kind'] not in ('AssocFn', 'Closure'):
                 continue
-            if _writes_field(f['thir'], 'counter'):
+            if _writes_field(f['thir'], 'counter', facts):
                 writers.add(f.get('method'))
         out.ob('R19.1', 'CountedInput.counter/writers[%s]' % cfg, writers <= {'read', 'read_byte'},
                'the counter is written by %s (only read and read_byte may)' % sorted(writers), '-')
@@ -194,15 +194,20 @@ def run(cx, out):
     shared.premises(cx, out, {'c14': {'R14.1'}, 'c08': {'R08.4'}})
 
 
-def _writes_field(node, name):
+def _writes_field(node, name, facts=None):
+    """does the body assign to the field playing role `name` (canonical name, see Facts.canon_field)?"""
     if isinstance(node, dict):
         if node.get('k') in ('assign', 'assignop'):
             l = node['l']
             while isinstance(l, dict) and l.get('k') in ('deref', 'ref'):
                 l = l['e']
-            if isinstance(l, dict) and l.get('k') == 'field' and l.get('fname') == name:
-                return True
-        return any(_writes_field(x, name) for x in node.values())
+            if isinstance(l, dict) and l.get('k') == 'field':
+                fn_ = l.get('fname')
+                if facts is not None:
+                    fn_ = facts.canon_field(l.get('lty'), fn_)
+                if fn_ == name:
+                    return True
+        return any(_writes_field(x, name, facts) for x in node.values())
     if isinstance(node, list):
-        return any(_writes_field(x, name) for x in node)
+        return any(_writes_field(x, name, facts) for x in node)
     return False
